@@ -270,7 +270,7 @@ func absentIsBenign(n string) bool {
 		return false
 	}
 	k := n[i+1:]
-	return strings.HasPrefix(k, "safety:") || strings.HasPrefix(k, "pre:") || k == "frame" || strings.HasSuffix(k, ":frame") || strings.HasSuffix(k, ":range-bound") || strings.HasPrefix(k, "cover:loop:")
+	return strings.HasPrefix(k, "safety:") || strings.HasPrefix(k, "pre:") || k == "frame" || strings.HasSuffix(k, ":frame") || strings.HasSuffix(k, ":range-bound") || strings.HasPrefix(k, "cover:loop:") || strings.HasPrefix(k, "cover:after:")
 }
 
 func fnVerified(res *checkResult, fn string) bool {
